@@ -254,6 +254,56 @@ def decDirAllocs (bs : Bytes) : List Nat :=
       if pushed = 0 then [] else (4 * entrySize) :: vecGrowth entrySize pushed 4 pushed
   | _ => []
 
+/-! ## lookups through the block-tile-index cache (`versatiles/reader.rs:137-160, 200-215`)
+
+`get_block_tile_index` is `cache.get(block)` or else load + decode + `ensure!(len == count)` +
+`cache.add`; `get_tile_data` then indexes the returned vector unchecked (`*tile_index.get(tile_id)`,
+tile_index.rs:105) with `tile_id < count` (the tile lies inside the block's box).  The cache is a
+`LimitedCache` (C20); eviction only removes entries, so an association list without eviction carries
+the invariant.  `validateFirst = false` is the order "add to the cache, then check" (a regression seeded
+against this check): the first lookup still fails, the second one hits the unvalidated entry. -/
+
+abbrev IdxCache := List (Nat × List Fmt.Range)
+
+def IdxCache.find (c : IdxCache) (k : Nat) : Option (List Fmt.Range) :=
+  match c with
+  | [] => none
+  | (k', idx) :: r => if k' == k then some idx else IdxCache.find r k
+
+/-- `get_block_tile_index`; `load k` = read + brotli + `TileIndex::from_blob` + `add_offset` -/
+def getIndex (validateFirst : Bool) (load : Nat → Outcome (List Fmt.Range)) (count : Nat → Nat)
+    (c : IdxCache) (k : Nat) : Outcome (List Fmt.Range) × IdxCache :=
+  match c.find k with
+  | some idx => (.ok idx, c)
+  | none =>
+    match load k with
+    | .ok idx =>
+      if validateFirst then
+        (if idx.length == count k then (.ok idx, (k, idx) :: c) else (.err, c))
+      else
+        (if idx.length == count k then (.ok idx, (k, idx) :: c) else (.err, (k, idx) :: c))
+    | .err => (.err, c)
+    | .panic => (.panic, c)
+
+/-- the part of `get_tile_data` after the block was found: position `pos` of the block's index -/
+def lookupTile (validateFirst : Bool) (load : Nat → Outcome (List Fmt.Range)) (count : Nat → Nat)
+    (c : IdxCache) (k pos : Nat) : Outcome Fmt.Range × IdxCache :=
+  match getIndex validateFirst load count c k with
+  | (.ok idx, c') =>
+    (match idx[pos]? with
+     | some r => .ok r
+     | none => .panic, c')                      -- `self.index[index]` out of bounds
+  | (.err, c') => (.err, c')
+  | (.panic, c') => (.panic, c')
+
+/-- a sequence of lookups `(block, position)` on one reader; results in order -/
+def lookupSeq (validateFirst : Bool) (load : Nat → Outcome (List Fmt.Range)) (count : Nat → Nat) :
+    IdxCache → List (Nat × Nat) → List (Outcome Fmt.Range)
+  | _, [] => []
+  | c, (k, pos) :: rest =>
+    let r := lookupTile validateFirst load count c k pos
+    r.1 :: lookupSeq validateFirst load count r.2 rest
+
 /-! ## verdict protocol -/
 
 def verdictO {α : Type} : Outcome α → String
